@@ -262,6 +262,20 @@ func hazards() []hazard {
 		"import (\n\t\"context\"\n\t_ \"time\"\n\n\t\"go.uber.org/cff\"\n)\n\nfunc Run(ctx context.Context, n int) (string, error) {\n"+flow("cff")+"}\n", nil)
 	add("blank-import:runtime-debug", "accept",
 		"import (\n\t\"context\"\n\t_ \"runtime/debug\"\n\n\t\"go.uber.org/cff\"\n)\n\nfunc Run(ctx context.Context, n int) (string, error) {\n"+flow("cff")+"}\n", nil)
+	// degenerate directives: whatever cff makes of them, it must not crash and
+	// what it writes must compile
+	add("empty-flow", "accept",
+		"import (\n\t\"context\"\n\n\t\"go.uber.org/cff\"\n)\n\nfunc Run(ctx context.Context, n int) error {\n\t_ = n\n\treturn cff.Flow(ctx)\n}\n", nil)
+	add("empty-parallel", "accept",
+		"import (\n\t\"context\"\n\n\t\"go.uber.org/cff\"\n)\n\nfunc Run(ctx context.Context, n int) error {\n\t_ = n\n\treturn cff.Parallel(ctx)\n}\n", nil)
+	add("parallel-options-only", "accept",
+		"import (\n\t\"context\"\n\n\t\"go.uber.org/cff\"\n)\n\nfunc Run(ctx context.Context, n int) error {\n\treturn cff.Parallel(ctx, cff.Concurrency(n), cff.ContinueOnError(n > 2))\n}\n", nil)
+	add("tasks-without-functions", "accept",
+		"import (\n\t\"context\"\n\n\t\"go.uber.org/cff\"\n)\n\nfunc Run(ctx context.Context, n int) error {\n\t_ = n\n\treturn cff.Parallel(ctx, cff.Tasks())\n}\n", nil)
+	add("flow-results-only-from-params", "accept",
+		"import (\n\t\"context\"\n\n\t\"go.uber.org/cff\"\n)\n\nfunc Run(ctx context.Context, n int) (int, error) {\n\tvar out int\n\terr := cff.Flow(ctx, cff.Params(n), cff.Results(&out))\n\treturn out, err\n}\n", nil)
+	add("directive-result-discarded", "accept",
+		"import (\n\t\"context\"\n\n\t\"go.uber.org/cff\"\n)\n\nfunc Run(ctx context.Context, n int) {\n\tcff.Parallel(ctx, cff.Task(func() { _ = n }))\n\t_ = cff.Parallel(ctx, cff.Task(func() error { return nil }))\n\tgo cff.Parallel(ctx, cff.Task(func() {}))\n\tdefer cff.Parallel(ctx, cff.Task(func() {}))\n}\n", nil)
 	add("unexported-foreign-type", "accept",
 		"import (\n\t\"context\"\n\n\t\"go.uber.org/cff\"\n\t\"scratch/HZ/ext\"\n)\n\nfunc Run(ctx context.Context, n int) (string, error) {\n\tvar out string\n\terr := cff.Flow(ctx,\n\t\tcff.Params(n),\n\t\tcff.Results(&out),\n\t\tcff.Task(ext.MakeX),\n\t\tcff.Task(ext.Show),\n\t)\n\treturn out, err\n}\n",
 		map[string]string{"ext/e.go": "package ext\n\nimport \"fmt\"\n\ntype x struct{ n int }\n\nfunc MakeX(i int) x { return x{i} }\n\nfunc Show(v x) string { return fmt.Sprint(v.n) }\n"})
